@@ -282,11 +282,9 @@ func c04Gen(rng *rand.Rand, i int) (c04Case, []string) {
 		c.Regime = "b"
 		c.Cap = []int{1, 2, 10, 100}[rng.Intn(4)]
 		c.ConsumeMs = []float64{0, 0.2, 2, 10}[rng.Intn(4)]
-		c.Pattern = "." // see assumptions: the percentage only covers the last 100 lines read
-		expected = nil
-		for _, l := range all {
-			expected = append(expected, l+"\n")
-		}
+		// The percentage only covers the last 100 lines read: with the filter
+		// (2 of 3 lines match, so 100 non-matching lines in a row do not occur)
+		// the most recent drop is always inside that window.
 	}
 	return c, expected
 }
@@ -303,7 +301,7 @@ func c04(r *vlib.Run) int {
 		"after every gap the next delivered line reports < 100. e2e: real dtail (serverless and over SSH) with paced appends. " +
 		"distinct = distinct (chunker, sizes, regime) cases; non-trivial = at least 10 appended lines.")
 	r.Assume("'the client cannot keep up' is realised as a delivery queue that is full; in regime a the queue can never be full")
-	r.Assume("regime b uses no filter: the transmission percentage only covers the last 100 lines read")
+	r.Assume("the transmission percentage only covers the last 100 lines read; the filter used matches 2 of 3 lines so a drop is never older than that when the next line is delivered")
 	r.Assume("truncation/rotation is not driven (the statement speaks of appends)")
 	n := r.N(400, 6000)
 	rng := r.Rng("api")
